@@ -167,7 +167,10 @@ def run(pid, tier):
             dense = {r_ for v in _json.load(open(os.path.join(common.VERIF, 'corpus', 'FEATURES.json'))).values() for r_ in v}
         except Exception:
             dense = set()
-        rels = sorted(set(sample) | (dense & set(rels)))
+        # plus every pinned file a listed finding names: the recorded failures are re-measured on every tier, so that the
+        # KNOWN-FINDING lines say what this run saw and a repaired finding stops being printed
+        listed = {k['signature'].split(':')[1] for k in common.load_known() if k['property'] == pid and k['signature'].startswith('c17-longer:')}
+        rels = sorted(set(sample) | (dense & set(rels)) | (listed & set(rels)))
     paths = [os.path.join(SITE, r[len('site-packages/'):]) if r.startswith('site-packages/') else os.path.join(common.STDLIB, r) for r in rels]
     srcdir = os.path.join(common.REPO, 'src', 'python_minifier')
     extra = [os.path.join(d, f) for d, _x, fs in os.walk(srcdir) for f in sorted(fs) if f.endswith('.py')]
